@@ -31,6 +31,9 @@ CLAIMED = {
  "C16": ("Contracts on the deterministic modes of relational built-ins, stated at the call that hands the answer to unification: char_code/2 (the character whose code equals the integer, in both directions; no value-changing conversion), atom_length/2 (length of the rune sequence of the atom's text), succ/2 (S-1 for S>0; X+1 through the exact add kernel, overflow is an error), between/3 (check mode runs the continuation only for low <= V <= high; enumeration yields low, and continues with low+1 only when that cannot wrap).",
          "Fragment: every enumeration mode (atom_concat, sub_atom, append, length, nth, member, select, between's answer sequence), arg/3, functor/3 and =../2 are not decided. Trusted: Env.Resolve, Atom.String as a deterministic pure function, utf8.ValidRune fact.",
          "contract-based deductive verification: WP over go/ssa with at-call and closure-precondition obligations; SMT", "DESIGN.md 5 C16"),
+ "C05": ("Run-time-panic obligations (nil dereference, index/slice bounds, division by zero, negative shift, failed type assertion, nil-map write, make length/size, close of closed channel, explicit panic) generated without annotation for every function under contract that does not opt out, and proved with unconstrained arguments: all of number.go's kernels and dispatchers, the operator table functions, the stream cursor methods, promiseStack and Promise.child, the enum-to-atom tables of exception.go/stream.go (enum validity as type invariants), both ring buffers, float() (no nil dereference on a ParseFloat error, no infinite literal), makeSlice (every make in the function; its recover clause honoured only while the deferred recover exists).",
+         "Fragment: parser/lexer recursion depth (X = [- never returns), blocking, most built-ins (declared nosafety where their contracts are about wiring), arbitrary byte strings as text are not decided. F23 (makeSlice trusts an unset memory limit) is an open known finding. Trusted: extern contracts for math/big, bufio, context; assumptions listed per function in the evidence.",
+         "contract-based deductive verification: zero-annotation safety VCs over go/ssa + SMT", "DESIGN.md 5 C05"),
 }
 
 NA_REASON = {
